@@ -50,9 +50,6 @@ ASSUMPTIONS = [
     "clock arithmetic is exact integer arithmetic (Timestamp/Timedelta are int64 nanosecond counts; SimpleClock values "
     "used here are multiples of 1/4, exact in binary64); |t| < 2^63",
     "listeners and initializers do not raise and do not call back into the context",
-    "InteractiveContext.run_until computes ceil((end - time)/step) in floating point; the model uses the exact ceiling "
-    "(they differ only when the quotient is within 2^-52 relative of an integer without being one: not reachable with "
-    "steps below ~100 days at nanosecond resolution; the generator stays below)",
 ]
 
 LEVEL_NOTE = ("full for fixed-step clocks (both plugins); C08_simulation_trace carries the guard start < stop: a run of length "
@@ -276,7 +273,8 @@ def zero_length(t):
 
 def pick_driver(rng, t, choices):
     """drivers: 0 SimulationContext setup/initialize_simulants/run/finalize/report, 2 run_simulation(), 1 InteractiveContext
-    setup/run/finalize/report, 3 InteractiveContext stepping by hand, 4 / 5: as 0 / 1 but stopping after run().
+    setup/run/finalize/report, 3 InteractiveContext stepping by hand, 4 / 5: as 0 / 1 but stopping after run(),
+    6 InteractiveContext session: setup, then run_until / run_for to arbitrary end times (case["ends"], offsets from start).
     A run of length zero cannot be finalized (finding F-V): it is driven up to run() only, unless the finding is listed as
     open, in which case the full drivers are exercised too and reported as KNOWN-FINDING."""
     d = rng.choice(choices)
@@ -284,10 +282,60 @@ def pick_driver(rng, t, choices):
     if zero_length(t):
         if not (is_open_finding(PROPERTY, "F-V") and rng.random() < 0.5):
             d = 5 if d in (1, 3) else 4
-    if neg and d in (1, 3, 5):
-        d = 4 if d == 5 else 0 if is_open_finding(PROPERTY, "F-V") else 4
-        # InteractiveContext.run_until asserts on a stop time a step or more in the past: outside the property
     return d
+
+
+def add_session(rng, case):
+    """turn a case into an InteractiveContext session: run_until / run_for to 1-4 arbitrary end times (offsets from the
+    start: on and off the step grid, zero, in the past, not monotone)"""
+    t = case["time"]
+    step = t["step"]
+    if case["clock"] == "simple":
+        t = case["time"] = one_type(t)
+        whole = isinstance(t["start"], int)
+    ends = []
+    for _ in range(rng.randint(1, 4)):
+        k = rng.randint(0, 6)
+        r = rng.random()
+        if case["clock"] == "datetime":
+            base = int(round(step * 24 * k))                                  # hours
+            off = base if r < 0.35 else base + rng.choice([-1, 1, 5]) if r < 0.6 else rng.randint(-30, int(step * 24 * 7) + 1)
+        else:
+            unit = 1 if whole else 0.25
+            base = step * k
+            off = base if r < 0.35 else base + rng.choice([-unit, unit]) if r < 0.6 else rng.randint(-4, 28) * unit
+            off = int(off) if whole else float(off)
+        ends.append(off)
+    case["driver"] = 6
+    case["ends"] = ends
+    case["via"] = [rng.choice(["until", "for"]) for _ in ends]
+    return case
+
+
+def gen_var(rng: random.Random):
+    """per-simulant step sizes (a step-size modifier): the global step changes from step to step; drivers: the interactive
+    ones and SimulationContext.run.  The step sizes themselves are C10's: the model takes them from a table read off the
+    run; what is checked here is the stepping loop around them."""
+    if rng.random() < 0.85:
+        mods = rng.sample([1, 2, 3, 4, 5, 7], rng.randint(2, 4))          # distinct: the global step really changes
+    else:
+        mods = [rng.choice([1, 2, 3]) for _ in range(rng.randint(1, 3))]
+    y, m, d = rng.choice([2005, 2020]), rng.randint(1, 12), rng.randint(1, 28)
+    case = {"clock": "datetime", "time": {"start": [y, m, d], "days": rng.randint(1, 16), "step": 1},
+            "driver": rng.choice([1, 5, 5, 4, 0]), "pop": len(mods), "mods": mods,
+            "comps": [{"hooks": {"4": None, "7": None, "3": None}, "hand": []}] + [gen_comp(rng, i) for i in range(rng.randint(0, 2))]}
+    if rng.random() < 0.5:
+        add_session(rng, case)
+    return case
+
+
+def var_corpus():
+    # F-AB (fixed by 98b7435f): one simulant with steps 1/2/3 days, 3-day run: run() makes 2 steps
+    return [{"clock": "datetime", "time": {"start": [2005, 7, 1], "days": 12, "step": 1}, "driver": 5, "pop": 2,
+             "mods": [2, 3], "comps": [{"hooks": {"4": None, "7": None, "3": None}, "hand": []}]},
+            {"clock": "datetime", "time": {"start": [2005, 7, 1], "days": 12, "step": 1}, "driver": 6, "pop": 2,
+             "mods": [2, 3], "ends": [72, 73, 24, 200], "via": ["until", "for", "until", "for"],
+             "comps": [{"hooks": {"4": None, "7": None, "3": None}, "hand": []}]}]
 
 
 def gen_sim(rng: random.Random):
@@ -296,8 +344,11 @@ def gen_sim(rng: random.Random):
     d = pick_driver(rng, t, [0, 0, 1, 2, 3])
     if clock == "simple" and d in (1, 5):
         t = one_type(t)
-    return {"clock": clock, "time": t, "driver": d, "pop": rng.randint(1, 4),
+    case = {"clock": clock, "time": t, "driver": d, "pop": rng.randint(1, 4),
             "comps": [gen_comp(rng, i) for i in range(rng.randint(1, 6))]}
+    if rng.random() < 0.2:
+        add_session(rng, case)
+    return case
 
 
 def gen_grid(rng: random.Random):
@@ -307,8 +358,11 @@ def gen_grid(rng: random.Random):
     d = pick_driver(rng, t, [0, 1, 3])
     if clock == "simple" and d in (1, 5):
         t = one_type(t)
-    return {"clock": clock, "time": t, "driver": d, "pop": 1,
+    case = {"clock": clock, "time": t, "driver": d, "pop": 1,
             "comps": [{"hooks": {str(h): None, "3": None}, "hand": []}]}
+    if rng.random() < 0.3:
+        add_session(rng, case)
+    return case
 
 
 def grid_corpus():
@@ -471,6 +525,15 @@ def run_sim(case):
         plugins = SIMPLE_PLUGINS
     log, ilog, setup_seen = [], [], []
     comps = build_components(case, log, ilog, setup_seen)
+    mods = case.get("mods")
+    if mods:
+        from vivarium import Component
+
+        class C08StepMod(Component):
+            def setup(self, builder):
+                builder.time.register_step_size_modifier(
+                    lambda idx: pd.Series([pd.Timedelta(days=mods[i % len(mods)]) for i in idx], index=idx))
+        comps = [C08StepMod()] + comps
     config = {"population": {"population_size": case["pop"]}, "time": conf_time}
     driver = case["driver"]
     kw = dict(components=comps, configuration=config, logging_verbosity=0)
@@ -478,7 +541,8 @@ def run_sim(case):
         kw["plugin_configuration"] = plugins
     err = None
     with StepCounter() as counter:
-        if driver in (1, 3, 5):
+        rets, targets = [], []
+        if driver in (1, 3, 5, 6):
             sim = InteractiveContext(setup=False, **kw)
         else:
             sim = SimulationContext(**kw)
@@ -497,8 +561,19 @@ def run_sim(case):
                 sim.finalize(); sim.report(print_results=False)
             elif driver == 4:
                 sim.setup(); sim.initialize_simulants(); sim.run()
-            else:
+            elif driver == 5:
                 sim.setup(); sim.run(with_logging=False)
+            else:
+                sim.setup()
+                for off, via in zip(case["ends"], case["via"]):
+                    e_val = (start_ts + pd.Timedelta(hours=off)) if dt else (t["start"] + off)
+                    targets.append(e_val)
+                    before = counter.n
+                    if via == "for":
+                        r = sim.run_for(e_val - sim.current_time, with_logging=False)
+                    else:
+                        r = sim.run_until(e_val, with_logging=False)
+                    rets.append((r, counter.n - before, sim.current_time))
         except Exception as e:
             err = e
         nsteps = counter.n
@@ -511,6 +586,8 @@ def run_sim(case):
         ocalls = [(CH[ch], lid, conv(c), conv(et), conv(es), STATE_ID.get(state, 99), n) for ch, lid, c, et, es, state, n in log]
         oinits = [(lid, conv(ct), conv(cw), conv(c), n) for lid, ct, cw, c, n in ilog]
         setup_clock = conv(setup_seen[0][0])
+        targets_i = [conv(x) for x in targets]
+        rets_i = [(r, n, conv(c)) for r, n, c in rets]
     except ValueError as e:
         return Result(ok=True, msg=f"outside the model's domain: {e}", coq=None, tags=("outside_domain",))
     tags = [case["clock"], f"driver{driver}", f"comps{len(case['comps'])}"]
@@ -523,11 +600,12 @@ def run_sim(case):
         glue_error = abs(Fraction(t["step"]) * 4 - step_i)
     # ---- direct oracle (the property statement on the observation; integer arithmetic, independent of the Coq model) ----
     ok, msg = True, ""
-    failures = []
+    failures, fail_msgs = [], []
 
     def fail(m, cls=None):
         nonlocal ok, msg
         failures.append(cls)
+        fail_msgs.append(m)
         if ok:
             ok, msg = False, m
     if err is not None:
@@ -541,10 +619,28 @@ def run_sim(case):
         fail(f"non-positive step {step_i}")
     if glue_error > 1000:      # the step the events carry must be the configured one (up to the float -> ns rounding)
         fail(f"configured step {t['step']} became {step_i} clock units (off by {float(glue_error)})")
-    n_exp = 0 if (start_i >= stop_i or step_i <= 0) else (stop_i - start_i + step_i - 1) // step_i
+    def ceil_steps(a, b):
+        return 0 if (a >= b or step_i <= 0) else (b - a + step_i - 1) // step_i
+    if mods:
+        return finish_var(case, locals())
+    if driver == 6:
+        # run_until / run_for to arbitrary end times: each call makes ceil((end - clock)/step) steps (none if end <= clock),
+        # returns that number, and leaves the clock on the first grid point at or after the end
+        n_exp, c = 0, start_i
+        for e_i, (r, n, c_after) in zip(targets_i, rets_i):
+            k = ceil_steps(c, e_i)
+            if n != k or r != k or c_after != c + k * step_i:
+                fail(f"run_until/run_for to {e_i} from clock {c}: {n} steps (returned {r}), clock {c_after}; expected "
+                     f"{k} steps and clock {c + k * step_i}")
+            n_exp += k
+            c = c_after
+        if err is None and len(rets_i) != len(case["ends"]):
+            fail("harness: not every run_until call was made")
+    else:
+        n_exp = ceil_steps(start_i, stop_i)
     if setup_clock != start_i:
         fail(f"clock at setup {setup_clock} != configured start {start_i}")
-    if err is None:
+    if err is None and driver != 6:
         if nsteps != n_exp:
             fail(f"{nsteps} steps taken, ceil((stop - start)/step) = {n_exp} (start {start_i}, stop {stop_i}, step {step_i})")
         if final_i != start_i + nsteps * step_i:
@@ -603,7 +699,7 @@ def run_sim(case):
                  f"{start_i - step_i}, {step_i}, {start_i - step_i}, {case['pop']}")
     tags.append("within_bucket_order_kept" if exact else "within_bucket_order_differs")
     tags.append("steps0" if n_exp == 0 else "exact_multiple" if (stop_i - start_i) % step_i == 0 else "not_multiple")
-    coq_driver = {0: 0, 2: 0, 3: 0, 1: 1, 4: 2, 5: 3}[driver]
+    coq_driver = {0: 0, 2: 0, 3: 0, 1: 1, 4: 2, 5: 3, 6: 4}[driver]
     if err is None:
         ocode = 0
     else:
@@ -612,10 +708,98 @@ def run_sim(case):
     obs = cpair(clist(cpair(cz(ch), cz(lid), cz(c), cz(et), cz(es), cz(state)) for ch, lid, c, et, es, state, n in ocalls),
                 clist(cpair(cz(lid), cz(ct), cz(cw), cz(c)) for lid, ct, cw, c, n in oinits),
                 cz(final_i), cz(nsteps), cz(ocode))
-    coq = "(" + cpair(cz(start_i), cz(stop_i), cz(step_i), cz(coq_driver), coq_comps(case), obs) + " : sim_case)"
+    coq = "(" + cpair(cz(start_i), cz(stop_i), cz(step_i), cz(coq_driver), czlist(targets_i), "[]", coq_comps(case), obs) + " : sim_case)"
+    if driver == 6:
+        tags.append("session")
+        tags += [("end_before_clock" if k == 0 else "end_reached") for _, k, _ in rets_i]
     return Result(ok=ok, msg=msg, coq=coq, key=(case["clock"], str(case["time"]), driver, str(case["comps"])) if ocalls else None,
                   obs={"steps": nsteps, "expected_steps": n_exp, "start": start_i, "stop": stop_i, "step": step_i,
                        "final": final_i, "calls": len(ocalls), "inits": len(oinits), "error": repr(err) if err else None, "finding_class": "F-V" if (failures and all(c == "F-V" for c in failures)) else None},
+                  tags=tuple(tags))
+
+
+def finish_var(case, L):
+    """cases with per-simulant step sizes: the direct oracle checks the stepping loop (not the step sizes, which are C10's):
+    within a step all events carry the same step size and time = clock + step; the clock advances by exactly that step;
+    every run / run_until ends with the clock at or after its end time and would not have needed its last step otherwise;
+    returned iteration counts are the numbers of steps made."""
+    ocalls, oinits, err, nsteps, driver = L["ocalls"], L["oinits"], L["err"], L["nsteps"], L["driver"]
+    start_i, stop_i, step_i, final_i, fail = L["start_i"], L["stop_i"], L["step_i"], L["final_i"], L["fail"]
+    targets_i, rets_i, tags = L["targets_i"], L["rets_i"], L["tags"]
+    if err is not None and not L["failures"]:
+        fail(f"the run raised {err!r}")
+    steps = []                                  # (clock, step size) of each step, from the loop events
+    for ch, lid, c, et, es, state, n in ocalls:
+        if et != c + es:
+            fail(f"event {NAME_OF.get(ch, ch)} at clock {c}: time {et} != clock + step_size {c + es}")
+        if state != ch:
+            fail(f"listener of {NAME_OF.get(ch, ch)} ran in life-cycle state {state}")
+        if 4 <= ch <= 7:
+            if not steps or steps[-1][0] != c:
+                steps.append((c, es))
+            elif steps[-1][1] != es:
+                fail(f"events of the step at clock {c} carry different step sizes {steps[-1][1]} and {es}")
+    for (c1, s1), (c2, _) in zip(steps, steps[1:]):
+        if c2 != c1 + s1:
+            fail(f"clock went from {c1} to {c2} after a step of size {s1}")
+    if len(steps) != nsteps:
+        fail(f"{nsteps} calls of step(), {len(steps)} steps seen by the listeners")
+    if steps and steps[0][0] != start_i:
+        fail(f"first step at clock {steps[0][0]}, start is {start_i}")
+    if steps and final_i != steps[-1][0] + steps[-1][1]:
+        fail(f"final clock {final_i} != last step's clock + step {steps[-1][0] + steps[-1][1]}")
+    clocks = [c for c, _ in steps] + [final_i]
+
+    def check_segment(c_from, target, n, what):
+        # n steps were made from clock c_from towards target
+        i = clocks.index(c_from) if c_from in clocks else None
+        if i is None or i + n >= len(clocks):
+            fail(f"{what}: cannot locate its steps")
+            return c_from
+        c_to = clocks[i + n]
+        if c_to < target:
+            fail(f"{what}: stopped at clock {c_to}, before the end time {target}")
+        if n > 0 and clocks[i + n - 1] >= target:
+            fail(f"{what}: made a step from clock {clocks[i + n - 1]}, which had already reached the end time {target}")
+        if n == 0 and c_from < target:
+            fail(f"{what}: no step although the clock {c_from} is before the end time {target}")
+        return c_to
+    if err is None:
+        if driver == 6:
+            c = start_i
+            for e_i, (r, n, c_after) in zip(targets_i, rets_i):
+                if r != n:
+                    fail(f"run_until/run_for to {e_i} returned {r} after {n} steps")
+                c2 = check_segment(c, e_i, n, f"run_until/run_for to {e_i} from {c}")
+                if c2 != c_after:
+                    fail(f"run_until/run_for to {e_i}: clock {c_after} afterwards, steps lead to {c2}")
+                c = c_after
+        else:
+            check_segment(start_i, stop_i, nsteps, "run")
+    for lid, ct, cw, c, n in oinits:
+        if ct != start_i - step_i or cw != step_i or c != start_i - step_i:
+            fail(f"initializer {lid}: creation_time {ct}, window {cw}, clock {c}; expected {start_i - step_i}, {step_i}")
+    tbl = {}
+    for c, es in steps:
+        tbl[c] = es
+    for ch, lid, c, et, es, state, n in ocalls:
+        if ch in (8, 9):
+            tbl.setdefault(c, es)
+    tags += ["variable_step", f"distinct_steps{min(len(set(es for _, es in steps)), 4)}"]
+    if driver == 6:
+        tags.append("session")
+    from vivarium.framework.lifecycle import InvalidTransitionError
+    ocode = 0 if err is None else 1 if isinstance(err, InvalidTransitionError) else 2
+    coq_driver = {0: 0, 2: 0, 3: 0, 1: 1, 4: 2, 5: 3, 6: 4}[driver]
+    obs = cpair(clist(cpair(cz(ch), cz(lid), cz(c), cz(et), cz(es), cz(state)) for ch, lid, c, et, es, state, n in ocalls),
+                clist(cpair(cz(lid), cz(ct), cz(cw), cz(c)) for lid, ct, cw, c, n in oinits),
+                cz(final_i), cz(nsteps), cz(ocode))
+    coq = "(" + cpair(cz(start_i), cz(stop_i), cz(step_i), cz(coq_driver), czlist(targets_i),
+                      clist(cpair(cz(c), cz(es)) for c, es in sorted(tbl.items())), coq_comps(case), obs) + " : sim_case)"
+    return Result(ok=not L["failures"], msg=L["fail_msgs"][0] if L["fail_msgs"] else "", coq=coq,
+                  key=(str(case["time"]), case["driver"], str(case["mods"]), str(case.get("ends")), str(case["comps"])),
+                  obs={"steps": steps[:20], "nsteps": nsteps, "final": final_i, "targets": targets_i, "returns": rets_i,
+                       "error": repr(err) if err else None, "finding_class": None},
                   tags=tuple(tags))
 
 
@@ -634,4 +818,6 @@ def streams(tier):
                corpus=grid_corpus, finding_of=finding_sim),
         Stream(name="sim", imports=imp, check="check_sim", gen=gen_sim, run=run_sim, n_quick=60, n_thorough=600,
                finding_of=finding_sim),
+        Stream(name="var", imports=imp, check="check_sim", gen=gen_var, run=run_sim, n_quick=40, n_thorough=500,
+               corpus=var_corpus, finding_of=finding_sim),
     ]
